@@ -217,7 +217,7 @@ func (w *worker) runPath(t []int) *exec {
 	if ex.unknownPC {
 		ex.notes["unknown-branch"] = "a branch feasibility query returned unknown; both sides were kept"
 	}
-	if ex.abort == nil && len(ex.failures) == 0 && len(ex.events) > 0 && atomic.AddInt64(&sampleBudget, -1) >= 0 {
+	if ex.abort == nil && len(ex.failures) == 0 && (len(ex.events) > 0 || len(ex.vars)+len(ex.choices) > 0) && atomic.AddInt64(&sampleBudget, -1) >= 0 {
 		// keep a concrete instance of this path for the evidence / translator validation
 		ex.sync()
 		if w.sol.check() == "sat" {
